@@ -107,9 +107,12 @@ def parseBMap (s : String) : Option BMap :=
       some (tv, bs)
     | _ => none
 
+/-- The variant `check` models: the flags `translate` read off the live source. -/
+def modelVariant : String := b01 Gen.cacheModeKey ++ b01 Gen.cacheArgKey ++ b01 Gen.cacheTopOnly
+
 /-- `variant` = which cache-key repairs the implementation under check has (mode, generic
-arguments, no caching under assumptions), as three 0/1 characters; `110` = the code in /repo (model
-`check`, classes printed); any other variant runs `check2` and every dependence is outside the
+arguments, no caching under assumptions), as three 0/1 characters; the generated flags (`111` for /repo) = model
+`check`; any other variant runs `check2` and every dependence is outside the
 classes (`D=-`). -/
 def histLine (reqs tobjs ranks fuel hist query variant : String) : String :=
   match parseWorld reqs tobjs, parseRanks ranks, fuel.toNat?, (csv hist).mapM parseQuery, parseQuery query with
@@ -117,7 +120,7 @@ def histLine (reqs tobjs ranks fuel hist query variant : String) : String :=
     let rkf := rankOf rk
     let gfp := (gfpCompat W q.ex).contains (q.p, q.a, q.v)
     let common := s!"gfp={b01 gfp} sem={b01 (sem W q.ex fuel q.p q.a q.v)} cyclic={b01 (D10_cyclic W rkf)}"
-    if variant == "110" then
+    if variant == modelVariant then
       let ans := answers W fuel {} (h ++ [q])
       let fresh := answerFresh W fuel q
       let freshAll := (h ++ [q]).map fun q' => answerFresh W fuel q'
@@ -196,7 +199,7 @@ def handle (line : String) : String :=
         (r.2.1, acc.2 ++ [tag])) (ini.map fun k => (k, k + 1000), [])
       s!"size={tbl.length} trace={",".intercalate outs}"
     | _, _, _, _ => "bad-op"
-  | ["hist", reqs, tobjs, ranks, fuel, hist, query] => histLine reqs tobjs ranks fuel hist query "110"
+  | ["hist", reqs, tobjs, ranks, fuel, hist, query] => histLine reqs tobjs ranks fuel hist query modelVariant
   | ["hist", reqs, tobjs, ranks, fuel, hist, query, variant] => histLine reqs tobjs ranks fuel hist query variant
   | ["caches"] =>
     "caches=" ++ ",".intercalate (modelledCaches.map fun m => s!"{m.2.1}.{m.2.2.1}:{m.2.2.2.name}")
